@@ -766,7 +766,7 @@ def run(ctx):
             c = json.load(open(os.path.join(cdir, fn)))
             do(c['case'], vsched.ReplayThenDefault(c['schedule']))
     # ---------- the catalogue, systematically ----------
-    per_case = ctx.budget(260, 6000)
+    per_case = ctx.budget(260, 3000)
     for case in catalogue():
         case = {k: v for k, v in case.items() if k != 'name'}
         n = 0
@@ -774,12 +774,12 @@ def run(ctx):
             runs.append((case, effective_schedule(obs), obs))
             n += 1
     # ---------- generated cases: a few systematic schedules, then random ones ----------
-    for _ in range(ctx.budget(160, 5000)):
+    for _ in range(ctx.budget(160, 1500)):
         case = gen_case(rng, big)
         k = 0
-        for prefix, obs in explore_case(case, 1 if not big else 2, ctx.budget(6, 40), rng):
+        for prefix, obs in explore_case(case, 1 if not big else 2, ctx.budget(6, 30), rng):
             runs.append((case, effective_schedule(obs), obs))
-        for _ in range(ctx.budget(6, 24)):
+        for _ in range(ctx.budget(6, 16)):
             do(case, vsched.RandomPolicy(rng, rng.choice([0.1, 0.3, 0.5])))
     # ---------- model + monitors ----------
     reqs, meta = [], []
